@@ -55,10 +55,11 @@ Theorem c10_in_use_cleared_after_call_orig_refuted :
 Proof. exact cleared_after_call_orig_refuted. Qed.
 
 (* [F] a legalization that failed (stage legalize or detailed; infeasible or parameters rejected) has left every
-   vector of the circuit as it was, ran no callback, and only reset the two "update seen" flags *)
+   vector of the circuit as it was and ran no callback: after_hard EParams c = c (nothing touched), after_hard
+   ELegalizer c = c with the two "update seen" flags reset *)
 Theorem c10_failed_legalize_unchanged : forall s o cb c e,
   s = StLegalize \/ s = StDetailed -> snd (call1 s o cb c) = Some e -> e = ELegalizer \/ e = EParams ->
-  fst (call1 s o cb c) = (set_netUpd (set_sizeUpd c false) false, []).
+  fst (call1 s o cb c) = (after_hard e c, []).
 Proof. exact failed_legalize_unchanged1. Qed.
 
 (* [F] Circuit::check()'s size equalities (and the polarity vector's, which check() forgets) hold in every state
